@@ -384,6 +384,8 @@ def load_tu(relpath, extra_flags=(), abspath=None):
 
 
 def walk(n):
+    if not n or 'kind' not in n:
+        return
     yield n
     for c in n.get('inner', []):
         yield from walk(c)
